@@ -15,6 +15,7 @@ import Driver.Context
 import Driver.Middleware
 import Driver.Adapter
 import Driver.Audit
+import Driver.Compile
 import Driver.Topic
 import Driver.NatsServer
 import Driver.Determinism
@@ -22,7 +23,7 @@ import Driver.Determinism
 open Driver
 
 def steppers : List (String → List String → Option String) :=
-  [stepHeaders, stepRegistry, stepThrift, stepRpc, stepOutBuf, stepProcessor, stepContext, stepContextHeap, stepMiddleware, stepAdapter, stepAudit, stepPeg, stepNatsServer, stepTopic, stepDeterminism]
+  [stepHeaders, stepRegistry, stepThrift, stepRpc, stepOutBuf, stepProcessor, stepContext, stepContextHeap, stepMiddleware, stepAdapter, stepAudit, stepPeg, stepNatsServer, stepTopic, stepDeterminism, stepCompile]
 
 def step (line : String) : String :=
   match (line.splitOn " ").filter (· ≠ "") with
